@@ -120,5 +120,13 @@ CHECKS += [
         "note": "trusted: reference router/filter/link-format parser in checks/c17.py; stub remote instead of a transport",
     },
 ]
+CHECKS += [
+    {
+        "id": "C19", "engine": "E6 file-system interposer + Hypothesis + exhaustive block grid", "level": "exploration",
+        "technique": "property-based testing over hostile Uri-Path lists, methods and options against a sandboxed file server with a file-system call interposer (every touched path must resolve inside the root) and outside-world snapshots; exhaustive block-wise GET grid",
+        "text": "Each case builds a fresh sandbox (root tree plus canaries outside), runs a generated request history through Context.render_to_pipe and checks, per request, every intercepted file-system path, the snapshot of everything outside the root (and inside when write is off) and the response class for hostile paths; file size x block size is enumerated completely for block-wise GET. Sampled histories.",
+        "note": "trusted: the interposer in checks/c19.py (audit hook + os.stat wrappers; self-tested), os.path.realpath; symlinks inside the root are out of scope",
+    },
+]
 claimed = {c["id"] for c in CHECKS}
 NOT_APPLICABLE = [{"property_id": i, "reason": "check not built yet in this session (planned, see DESIGN.md section 3); no claim is made"} for i in ALL if i not in claimed]
